@@ -59,6 +59,9 @@ def check_c17(tier):
     # reading must not depend on how the bytes are delivered (ReaderFaults.tla)
     from rf_checks import reader_faults
     reader_faults(rep, "C17", ["cert"], tier)
+    # the command-line entry point: gen-certurl writes exactly the certificates, OCSP response and SCT files it was given
+    from cli_checks import cert_cli
+    cert_cli(rep, "C17")
     # calls on independent objects running in parallel do not interfere (Trace_Purity, race detector)
     from purity_checks import parallel_cold
     parallel_cold(rep, "C17", "certurl")
